@@ -181,6 +181,24 @@ for (mod, pre, U) in (("full", "full", FM.replace("FullMerkleTree", "FullMerkleP
           bounds="ARBITRARY proof value of %d levels (symbolic siblings <= 255, symbolic direction bits): decoding (leaf_index = LSB-first expansion), path vectors, root recomputation = independent fold" % L,
           units=[U + x for x in ("leaf_index", "get_path_index", "get_path_elements", "compute_root_from", "length")], replay_body=None)
 
+
+# ------------------------------------------------------------------------------------------------
+# C11 — FFI wrapper transparency (mounted build h_rln, every extern "C" function of ffi.rs)
+# ------------------------------------------------------------------------------------------------
+_C11 = [("set_tree", "set_tree"), ("delete_leaf", "delete_leaf"), ("set_leaf", "set_leaf"), ("set_leaves_from", "set_leaves_from"),
+        ("set_next_leaf", "set_next_leaf"), ("init_tree_with_leaves", "init_tree_with_leaves"), ("set_metadata", "set_metadata"),
+        ("atomic_operation", "atomic_operation"), ("seq_atomic_operation", "atomic_operation + leaves_set"), ("leaves_set", "leaves_set"), ("flush", "flush"),
+        ("get_leaf", "get_leaf"), ("get_proof", "get_proof"), ("get_root", "get_root"), ("get_metadata", "get_metadata"), ("key_gen", "key_gen"),
+        ("extended_key_gen", "extended_key_gen"), ("prove", "prove"), ("generate_rln_proof", "generate_rln_proof"),
+        ("generate_rln_proof_with_witness", "generate_rln_proof_with_witness"), ("seeded_key_gen", "seeded_key_gen"),
+        ("seeded_extended_key_gen", "seeded_extended_key_gen"), ("recover_id_secret", "recover_id_secret"), ("verify", "verify"),
+        ("verify_rln_proof", "verify_rln_proof"), ("verify_with_roots", "verify_with_roots"), ("hash", "public::hash"), ("poseidon_hash", "public::poseidon_hash")]
+for f, m in _C11:
+    K("C11", "h_rln", "c11_ffi::proofs::c11_" + f, tier="quick", mem_gb=3, timeout_s=900,
+      bounds="input buffers: arbitrary content, EVERY length 0..=6; scalar arguments: any 64-bit value; the Rust API method is a recording spy that returns a "
+             "nondeterministic Ok/Err (verdicts: true/false/Err) and writes an arbitrary byte string of every length 0..=4; unwind 10",
+      units=["rln::ffi::" + f, "rln::ffi::ProcessArg", "rln::ffi::Buffer (From conversions)", "spy for rln::public::RLN::" + m])
+
 # ------------------------------------------------------------------------------------------------
 ASSUMPTIONS = {
     "_common": [
@@ -204,6 +222,10 @@ ASSUMPTIONS = {
             "JSON witness codec and str_to_fr are outside the claim (serde_json / allocation-heavy third-party code)"],
     "C12": ["that a request inside the satisfiable region yields a verifying proof is C01 (not applicable); the circuit's region itself (message_id < limit <= 2^16) is taken from the circuit source, not decided"],
     "C04": ["'equal to the circuit's witness outputs' is outside the claim (needs true field arithmetic)"],
+    "C11": ["wrapper transparency: the Rust API methods are replaced by recording spies, so 'the tree state evolves identically' is derived from "
+            "'same method, same context, same arguments in the same positions, same order' plus determinism of the Rust API in its arguments (C06/C08/C15 cover those methods)",
+            "constructors new / new_with_params (key parsing, Box::into_raw) and ownership of the leaked output buffers are outside the claim",
+            "only the non-stateless feature set (the mounted build) is covered; the stateless build shares the same macros and wrapper bodies"],
     "C19": [
         "oracle written from circom's documentation in 256-bit limb arithmetic (engine_k/vlib/vlib.rs)",
         "values of Mul/Div/Pow (true field products) and Idiv/Mod quotients beyond the multiplication-free lemmas are outside the claim",
